@@ -1,5 +1,5 @@
 use super::*;
-use crate::{math::consts::PI, operator::single::rotate::rz};
+use crate::{math::consts::PI, operator::phase_shift};
 
 pub fn qft(a_mask: N) -> MultiOp {
     let count = a_mask.count_ones() as usize;
@@ -19,11 +19,10 @@ pub fn qft(a_mask: N) -> MultiOp {
 
             for i in 0..(count - 1) {
                 res.append(&mut h::h(vec[i]));
-                res.extend((1..(count - i)).map(|j| {
-                    rz(vec[i + j], PI * 0.5f64.powi(j as i32))
-                        .and_then(|op| op.c(vec[i]))
-                        .unwrap()
-                }));
+                for j in 1..(count - i) {
+                    let phase = phase_shift(PI * 0.5f64.powi(j as i32), vec[i + j]);
+                    res.append(&mut phase.c(vec[i]).unwrap());
+                }
             }
 
             res.append(&mut h::h(vec[count - 1]).0);
